@@ -106,19 +106,19 @@ def step (s : S) (line : String) : S × String :=
                            UInt32.ofNat ((argNat? ws "c").getD 0)) }, "ok")
   | "new32" :: _ =>
     match argNat? ws "seed" with
-    | some sd => withSeed s sd fun e =>
+    | some sd => withSeed s (sd % 4294967296) fun e =>
         let r := Rng.createEnv .mersenne (UInt32.ofNat sd) e; ({ s with r := r }, s!"ok seed={r.seed}")
     | none => (s, "bad-op")
   | "newfast" :: _ =>
     match argNat? ws "seed" with
-    | some sd => withSeed s sd fun e =>
+    | some sd => withSeed s (sd % 4294967296) fun e =>
         let r := Rng.createEnv .fast (UInt32.ofNat sd) e; ({ s with r := r }, s!"ok seed={r.seed}")
     | none => (s, "bad-op")
   | "newtime" :: _ =>
     withSeed s 0 fun e => let r := Rng.createTimeseeded e; ({ s with r := r }, s!"ok seed={r.seed}")
   | "init" :: _ =>
     match argNat? ws "seed" with
-    | some sd => withSeed s sd fun e =>
+    | some sd => withSeed s (sd % 4294967296) fun e =>
         let r := s.r.initEnv (UInt32.ofNat sd) e; ({ s with r := r }, s!"ok seed={r.seed}")
     | none => (s, "bad-op")
   | "init64" :: _ =>
